@@ -15,7 +15,7 @@ print("tests:", tests)
 assert sh("git -C /repo status --porcelain").stdout.strip() == ""
 assert sh(f"git -C /repo apply {wt}/patch.diff").returncode == 0
 try:
-    out = sh("cd /verif && /venv/bin/python -m hsa check all", timeout=900).stdout
+    out = sh("cd /verif && HSA_NO_CANARY=1 /venv/bin/python -m hsa check all", timeout=900).stdout
 finally:
     sh("git -C /repo checkout -- .")
 sh("cd /verif && git checkout -- evidence 2>/dev/null; rm -f /verif/evidence/*.findings.json")
